@@ -9,11 +9,17 @@ package standard
 // Scen_Bounded.tla of family "bids": the clock advances, in some slots a block is auctioned (a
 // proposal of one of our validators).  After every step the driver logs the slots that have an entry
 // in builderBidsCache.
+//
+// Auctions have duration and complete out of slot order: AucStart runs AuctionBlock(slot) on its own goroutine
+// and leaves it inside the bid strategy (the relays have not answered), the auctions of later slots run on the
+// SAME service instance meanwhile, AucEnd lets the strategy answer - k slots later, up to 40 - and the real
+// cacheBid(slot) runs then, for a slot that may be far below everything the cache holds.
 
 import (
 	"context"
 	"sort"
 	"strconv"
+	"sync"
 	"testing"
 	"time"
 
@@ -37,6 +43,7 @@ type c20Step struct {
 	Ev  string `json:"ev"`
 	Now uint64 `json:"now"`
 	S   uint64 `json:"s"`
+	K   uint64 `json:"k"` // AucStart: the relays answer k slots later (the scenario has the AucEnd step there)
 }
 
 type c20Scenario struct {
@@ -57,18 +64,65 @@ func (c20ExecConfig) ProposerConfig(_ context.Context, _ e2wtypes.Account, _ pha
 	}, nil
 }
 
-// c20NoBids is the builder bid strategy: the relays have nothing.
-type c20NoBids struct{ calls int }
+// c20BidGate holds the auction of one slot inside the bid strategy.
+type c20BidGate struct {
+	arrived chan struct{}
+	release chan struct{}
+}
 
-func (b *c20NoBids) BuilderBid(_ context.Context, _ phase0.Slot, _ phase0.Hash32, _ phase0.BLSPubKey,
+// c20NoBids is the builder bid strategy: the relays have nothing - and may take their time to say so.
+type c20NoBids struct {
+	mu    sync.Mutex
+	calls int
+	gates map[uint64]*c20BidGate // slot -> armed gate
+}
+
+func (b *c20NoBids) arm(slot uint64) *c20BidGate {
+	g := &c20BidGate{arrived: make(chan struct{}), release: make(chan struct{})}
+	b.mu.Lock()
+	if b.gates == nil {
+		b.gates = map[uint64]*c20BidGate{}
+	}
+	b.gates[slot] = g
+	b.mu.Unlock()
+	return g
+}
+
+func (b *c20NoBids) count() int {
+	b.mu.Lock()
+	defer b.mu.Unlock()
+	return b.calls
+}
+
+func (b *c20NoBids) BuilderBid(_ context.Context, slot phase0.Slot, _ phase0.Hash32, _ phase0.BLSPubKey,
 	_ *beaconblockproposer.ProposerConfig, _ map[phase0.BLSPubKey]*blockrelay.BuilderConfig,
 ) (*blockauctioneer.Results, error) {
+	b.mu.Lock()
 	b.calls++
+	g := b.gates[uint64(slot)]
+	delete(b.gates, uint64(slot))
+	b.mu.Unlock()
+	if g != nil {
+		close(g.arrived)
+		<-g.release
+	}
 	return &blockauctioneer.Results{
 		Participation: map[string]*blockauctioneer.Participation{},
 		AllProviders:  []builderclient.BuilderBidProvider{},
 		Providers:     []builderclient.BuilderBidProvider{},
 	}, nil
+}
+
+func c20BidCount(s *Service) int {
+	s.builderBidsCacheMu.RLock()
+	defer s.builderBidsCacheMu.RUnlock()
+	return len(s.builderBidsCache)
+}
+
+// c20Auction is an AuctionBlock call in flight.
+type c20Auction struct {
+	gate *c20BidGate
+	done chan error
 }
 
 func c20BidSlots(s *Service) []uint64 {
@@ -107,6 +161,23 @@ func TestVerifC20Bids(t *testing.T) {
 		var ct *verifsupport.ChainTime
 		bids := &c20NoBids{}
 		now := uint64(0)
+		flights := map[uint64]*c20Auction{}
+		running := func() []uint64 {
+			res := make([]uint64, 0, len(flights))
+			for slot := range flights {
+				res = append(res, slot)
+			}
+			sort.Slice(res, func(i, j int) bool { return res[i] < res[j] })
+			return res
+		}
+		auction := func(slot uint64) (*blockauctioneer.Results, error) {
+			var parent phase0.Hash32
+			parent[0] = byte(slot)
+			var pubkey phase0.BLSPubKey
+			pubkey[0] = 0xc2
+			pubkey[1] = byte(slot % 3)
+			return s.AuctionBlock(ctx, phase0.Slot(slot), parent, pubkey)
+		}
 		for _, st := range sc.Steps {
 			switch st.Ev {
 			case "Reset":
@@ -140,19 +211,52 @@ func TestVerifC20Bids(t *testing.T) {
 			case "Advance":
 				now++
 				ct.SetSlot(now)
-				tr.Emit(verifsupport.Ev{"sc": sc.Sc, "ev": "Advance", "now": now, "bids": c20BidSlots(s), "nbids": len(s.builderBidsCache)})
+				tr.Emit(verifsupport.Ev{"sc": sc.Sc, "ev": "Advance", "now": now, "bids": c20BidSlots(s), "nbids": c20BidCount(s), "aucrun": running()})
 			case "Auction":
-				before := bids.calls
-				var parent phase0.Hash32
-				parent[0] = byte(now)
-				var pubkey phase0.BLSPubKey
-				pubkey[0] = 0xc2
-				pubkey[1] = byte(now % 3)
-				res, err := s.AuctionBlock(ctx, phase0.Slot(now), parent, pubkey)
-				if err != nil || res == nil || bids.calls != before+1 {
+				before := bids.count()
+				res, err := auction(now)
+				if err != nil || res == nil || bids.count() != before+1 {
 					t.Fatalf("c20: scenario %d: AuctionBlock at slot %d did not run the auction (%v)", sc.Sc, now, err)
 				}
-				tr.Emit(verifsupport.Ev{"sc": sc.Sc, "ev": "Auction", "s": now, "now": now, "bids": c20BidSlots(s), "nbids": len(s.builderBidsCache)})
+				tr.Emit(verifsupport.Ev{"sc": sc.Sc, "ev": "Auction", "s": now, "now": now, "bids": c20BidSlots(s), "nbids": c20BidCount(s), "aucrun": running()})
+			case "AucStart":
+				// AuctionBlock(slot) on its own goroutine (the proposal job of the slot); it stays inside the bid
+				// strategy while the following steps - the auctions of later slots among them - are executed
+				g := bids.arm(st.S)
+				a := &c20Auction{gate: g, done: make(chan error, 1)}
+				slot := st.S
+				go func() {
+					res, err := auction(slot)
+					if err == nil && res == nil {
+						err = context.Canceled
+					}
+					a.done <- err
+				}()
+				select {
+				case <-g.arrived:
+				case err := <-a.done:
+					t.Fatalf("c20: scenario %d: AuctionBlock at slot %d returned without asking the relays (%v)", sc.Sc, slot, err)
+				case <-time.After(30 * time.Second):
+					t.Fatalf("c20: scenario %d: AuctionBlock at slot %d does not reach the relays", sc.Sc, slot)
+				}
+				flights[slot] = a
+				tr.Emit(verifsupport.Ev{"sc": sc.Sc, "ev": "AucStart", "s": slot, "k": st.K, "now": now, "bids": c20BidSlots(s), "nbids": c20BidCount(s), "aucrun": running()})
+			case "AucEnd":
+				a := flights[st.S]
+				if a == nil {
+					t.Fatalf("c20: scenario %d: no auction of slot %d is under way", sc.Sc, st.S)
+				}
+				close(a.gate.release)
+				select {
+				case err := <-a.done:
+					if err != nil {
+						t.Fatalf("c20: scenario %d: AuctionBlock at slot %d failed (%v)", sc.Sc, st.S, err)
+					}
+				case <-time.After(30 * time.Second):
+					t.Fatalf("c20: scenario %d: AuctionBlock at slot %d does not return", sc.Sc, st.S)
+				}
+				delete(flights, st.S)
+				tr.Emit(verifsupport.Ev{"sc": sc.Sc, "ev": "AucEnd", "s": st.S, "late": now - st.S, "now": now, "bids": c20BidSlots(s), "nbids": c20BidCount(s), "aucrun": running()})
 			default:
 				t.Fatalf("c20: unknown step %q", st.Ev)
 			}
